@@ -126,7 +126,10 @@ def main(P, argv):
     notes = []
 
     # 1. proof step
-    proof = V.proof_step(prop, extra_targets=[m.replace('.', '/') + '.vo' for m in P.coq_imports])
+    import importlib
+    also = [importlib.import_module("props." + q) for q in getattr(P, "also", [])]
+    targets = [m.replace('.', '/') + '.vo' for Q in [P] + also for m in Q.coq_imports]
+    proof = V.proof_step(prop, extra_targets=sorted(set(targets)))
     log("[%s] proof step: %d/%d theorems discharged%s" % (
         prop, proof["discharged"], proof["obligations"], "" if proof["ok"] else " PROBLEMS: " + "; ".join(proof["problems"])))
     chk = None
@@ -166,7 +169,20 @@ def main(P, argv):
     cases = []
     if a.replay:
         rp = json.load(open(a.replay))
-        if "case" in rp:
+        eng = rp.get("engine") or rp.get("engine_of_case")
+        if "case" in rp and rp["case"] is not None and eng and eng != P.engine:
+            # the failing input belongs to one of the further engines of this property
+            Q = next((q for q in also if q.engine == eng), None)
+            if Q is not None:
+                qc = dict(rp["case"], id=0)
+                qo = evaluate(Q, hb["bin"], [qc])
+                k, s_, cls = worst(qo.rows.get(0, []), set())
+                log("[%s] replay on engine %s: %s rows=%s" % (prop, eng, k, qo.rows.get(0)))
+                if k in ("viol", "corr"):
+                    log("VIOLATION property=%s replay=%s" % (prop, a.replay))
+                    return 1
+                return 0
+        if "case" in rp and rp["case"] is not None:
             cases.append(rp["case"])
         else:
             log("[%s] replay file names no input (%s); re-running the full check" % (prop, rp.get("kind")))
@@ -184,30 +200,45 @@ def main(P, argv):
         if "_witness" in c:
             witness_ids[i] = c["_witness"]
 
-    # 4. explore
+    # 4. explore (the property's own engine, then any further engines it also uses)
     o = evaluate(P, hb["bin"], cases)
+    parts = [(P, cases, o)]
+    if not a.replay:
+        for Q in also:
+            qcases = Q.gen(rng, tier)
+            for i, c in enumerate(qcases):
+                c["id"] = i
+            parts.append((Q, qcases, evaluate(Q, hb["bin"], qcases)))
     kinds = {}
     viol, corr, known_seen = [], [], {}
-    for c in cases:
-        k, s, cls = worst(o.rows.get(c["id"], []), listed)
-        kinds[k] = kinds.get(k, 0) + 1
-        if k == "viol":
-            viol.append((c, s, cls))
-        elif k == "corr":
-            corr.append((c, s, cls))
-        elif k == "known":
-            known_seen.setdefault(cls, []).append(c)
+    for Q, qcases, qo in parts:
+        for c in qcases:
+            k, s, cls = worst(qo.rows.get(c["id"], []), listed if Q is P else set())
+            kinds[k] = kinds.get(k, 0) + 1
+            if k == "viol":
+                viol.append((c, s, cls, Q))
+            elif k == "corr":
+                corr.append((c, s, cls, Q))
+            elif k == "known":
+                known_seen.setdefault(cls, []).append(c)
+        if Q is not P:
+            o.problems += qo.problems
 
     # evidence numbers
     hashes = set()
     dist = {}
-    for c in cases:
-        r = o.results.get(c["id"])
-        if r is not None and P.nontrivial(c, r):
-            hashes.add(V.case_hash(c))
-        for key in P.describe(c, r):
-            dist[key] = dist.get(key, 0) + 1
-    coverage["evaluations"] = len(cases)
+    for Q, qcases, qo in parts:
+        for c in qcases:
+            r = qo.results.get(c["id"])
+            if r is not None and Q.nontrivial(c, r):
+                hashes.add(V.case_hash(c))
+            for key in Q.describe(c, r):
+                key = key if Q is P else "%s:%s" % (Q.engine, key)
+                dist[key] = dist.get(key, 0) + 1
+    coverage["evaluations"] = sum(len(qc) for _, qc, _ in parts)
+    if len(parts) > 1:
+        coverage["rule"] = P.rule + " ALSO (engine %s): " % ", ".join(Q.engine for Q in also) + " ".join(Q.rule for Q in also)
+        coverage["trusted_base"] = P.trusted_base + [t for Q in also for t in Q.trusted_base if t not in P.trusted_base]
     coverage["distinct_nontrivial"] = len(hashes)
     coverage["input_distribution"] = dist
     coverage["verdict_kinds"] = kinds
@@ -217,15 +248,15 @@ def main(P, argv):
 
     deadline = time.time() + (600 if tier == "thorough" else 120)
 
-    def report_violation(c, s, cls):
-        small = shrink(P, hb["bin"], c, "viol", s, listed, deadline=deadline)
+    def report_violation(c, s, cls, Q=P):
+        small = shrink(Q, hb["bin"], c, "viol", s, listed if Q is P else set(), deadline=deadline)
         small["id"] = 0
-        o2 = evaluate(P, hb["bin"], [small])
+        o2 = evaluate(Q, hb["bin"], [small])
         path = V.write_replay(prop, "violation", dict(
-            property=prop, kind="failing-input", engine=P.engine, sub_check=P.sub_names.get(s, s),
+            property=prop, kind="failing-input", engine=Q.engine, sub_check=Q.sub_names.get(s, s),
             case=small, observed=o2.results.get(0), rows=o2.rows.get(0), original_case=c,
             how="./check %s --replay <this file>" % prop,
-            meaning="the real code's output on `case` violates the property monitor (Coq: %s)" % P.monitor_name))
+            meaning="the real code's output on `case` violates the property monitor (Coq: %s)" % Q.monitor_name))
         log("VIOLATION property=%s replay=%s" % (prop, path))
 
     if viol:
@@ -238,7 +269,7 @@ def main(P, argv):
         found = None
         extra_n = 0
         if corr:
-            seeds = [c for c, _, _ in corr[:5]]
+            seeds = [c for c, _, _, Q in corr[:5] if Q is P]
             neigh = []
             for c in seeds:
                 neigh += V.shrink_candidates(c)[:200]
@@ -261,7 +292,7 @@ def main(P, argv):
         violations = 1
         exit_code = 1
         if found:
-            report_violation(*found)
+            report_violation(*found[:3])
         else:
             first = corr[0][0] if corr else None
             path = V.write_replay(prop, "broken", dict(
@@ -269,9 +300,9 @@ def main(P, argv):
                 proof_problems=proof["problems"], infrastructure_problems=o.problems[:10],
                 what=("theorem(s) of Props/%s.v no longer check" % prop) if not proof["ok"] else
                      ("model %s and implementation differ on `case` (sub-check %s) while the property monitor accepts the "
-                      "implementation's output" % (P.model_name, P.sub_names.get(corr[0][1], corr[0][1]) if corr else "?")),
-                case=first, observed=o.results.get(first["id"]) if first else None,
-                rows=o.rows.get(first["id"]) if first else None,
+                      "implementation's output" % (corr[0][3].model_name if corr else P.model_name,
+                                                   corr[0][3].sub_names.get(corr[0][1], corr[0][1]) if corr else "?")),
+                case=first, observed=None, rows=None, engine_of_case=(corr[0][3].engine if corr else None),
                 differing_cases=len(corr), searched=extra_n))
             log("VIOLATION property=%s replay=%s no-failing-input-found" % (prop, path))
 
